@@ -30,32 +30,70 @@ mod verif_c16_state {
         ok
     }
 
-    // @harness id=C16 tier=quick timeout=1500 mem=14 checks=rust
-    // @bounds TabExpandedString "a\tb" created with width 8 then set to width 2: expanded() == "a  b" (one expansion per harness: OnceLock::get_or_init is expensive under CBMC)
-    #[kani::proof]
-    #[kani::unwind(12)]
-    //@STUBS repeat replacetab
-    fn c16_tab_string_reexpands() {
-        let mut t = TabExpandedString::new("a\tb".into(), 8);
-        t.set_tab_width(2);
-        assert!(str_is(t.expanded(), b"a  b"));
+    // expanded() = text with every tab replaced by the CURRENT width, split into three facts (a harness that creates, re-widths and
+    // expands one string twice does not finish: > 15 min):
+    //   (i)  with an empty cache expanded() computes the expansion from the current tab_width   (c16_expanded_uses_current_width)
+    //   (ii) set_tab_width empties the cache exactly when the width changes                         (c16_set_tab_width_drops_cache)
+    //   (iii) a filled cache is returned as is: std's OnceLock::get_or_init
+    fn expanded_at(w: usize) {
+        // the width is concrete per harness: a string whose LENGTH is symbolic makes every later string operation explode
+        let t = TabExpandedString::WithTabs { original: "a\tb".into(), tab_width: w, expanded: std::sync::OnceLock::new() };
+        let e = t.expanded().as_bytes();
+        assert!(e.len() == 2 + w);
+        assert!(e[0] == b'a' && e[e.len() - 1] == b'b');
+        if w > 0 {
+            assert!(e[1] == b' ' && e[w] == b' ');
+        }
         std::mem::forget(t);
     }
 
     // @harness id=C16 tier=quick timeout=1500 mem=14 checks=rust
-    // @bounds TabExpandedString "a\tb" expanded at width 3 ("a   b"), then set to width 0: expanded() == "ab" (the cached expansion is dropped); a text without tabs is returned as is
+    // @bounds TabExpandedString::WithTabs("a\tb", width 3, empty cache): expanded() == "a   b"
     #[kani::proof]
     #[kani::unwind(12)]
     //@STUBS repeat replacetab
-    fn c16_tab_string_cache_invalidated() {
-        let mut t = TabExpandedString::new("a\tb".into(), 3);
-        assert!(t.expanded().len() == 5);
-        t.set_tab_width(0);
-        assert!(str_is(t.expanded(), b"ab"));
-        let n = TabExpandedString::new("xy".into(), 3);
-        assert!(str_is(n.expanded(), b"xy"));
+    fn c16_expanded_uses_current_width() {
+        expanded_at(3);
+    }
+
+    // @harness id=C16 tier=quick timeout=1500 mem=14 checks=rust
+    // @bounds TabExpandedString::WithTabs("a\tb", width 0, empty cache): expanded() == "ab"
+    #[kani::proof]
+    #[kani::unwind(12)]
+    //@STUBS repeat replacetab
+    fn c16_expanded_width_zero() {
+        expanded_at(0);
+    }
+
+    // @harness id=C16 tier=quick timeout=1500 mem=14 checks=rust
+    // @bounds TabExpandedString::WithTabs with a FILLED cache and any widths old, new in 0..=9: set_tab_width(new) stores new and empties the cache iff new != old; a NoTabs string is untouched; new("xy") is NoTabs and new("a\tb") is WithTabs with the given width
+    #[kani::proof]
+    #[kani::unwind(12)]
+    fn c16_set_tab_width_drops_cache() {
+        let old: usize = kani::any();
+        let new: usize = kani::any();
+        kani::assume(old <= 9 && new <= 9);
+        let cache = std::sync::OnceLock::new();
+        let _ = cache.set(String::from("stale"));
+        let mut t = TabExpandedString::WithTabs { original: "a\tb".into(), tab_width: old, expanded: cache };
+        t.set_tab_width(new);
+        match &t {
+            TabExpandedString::WithTabs { tab_width, expanded, .. } => {
+                assert!(*tab_width == new);
+                assert!(expanded.get().is_none() == (new != old));
+            }
+            _ => assert!(false),
+        }
+        let mut n = TabExpandedString::new("xy".into(), 3);
+        n.set_tab_width(new);
+        assert!(matches!(&n, TabExpandedString::NoTabs(s) if s.len() == 2));
+        let c = TabExpandedString::new("a\tb".into(), 5);
+        assert!(matches!(&c, TabExpandedString::WithTabs { tab_width: 5, .. }));
+        kani::cover!(new == old);
+        kani::cover!(new != old);
         std::mem::forget(t);
         std::mem::forget(n);
+        std::mem::forget(c);
     }
 
     // @harness id=C16 tier=quick timeout=1500 mem=14 checks=rust
@@ -99,20 +137,20 @@ mod verif_c16_state {
     }
 
     macro_rules! c16_step {
-        ($name:ident, $bs:ident, $now:ident, $op:block) => {
+        ($name:ident, $bs:ident, $now:ident, $w0:ident, $op:block) => {
             #[kani::proof]
             #[kani::unwind(6)]
             //@STUBS std now noterm nomulti norender rlany noweight
             fn $name() {
                 let $now = mk_instant(1_000_000, 0);
-                let w0: usize = kani::any();
-                kani::assume(w0 <= 9);
-                let mut $bs = pre_state(w0);
+                let $w0: usize = kani::any();
+                kani::assume($w0 <= 9);
+                let mut $bs = pre_state($w0);
                 assert!(widths_ok(&$bs));
                 $op;
                 assert!(widths_ok(&$bs));
-                kani::cover!(w0 == 0);
-                kani::cover!(w0 == 9);
+                kani::cover!($w0 == 0);
+                kani::cover!($w0 == 9);
                 std::mem::forget($bs);
             }
         };
@@ -121,7 +159,7 @@ mod verif_c16_state {
     // One operation from an ARBITRARY consistent state (inductive step: histories of any length are covered).
     // @harness id=C16 tier=quick timeout=1800 mem=12 checks=rust
     // @bounds inductive step, set_tab_width(w in 0..=9) from any consistent state with width w0 in 0..=9: afterwards message, prefix, every template literal and the style carry the new width
-    c16_step!(c16_step_set_tab_width, bs, now, {
+    c16_step!(c16_step_set_tab_width, bs, now, w0, {
         let w: usize = kani::any();
         kani::assume(w <= 9);
         bs.set_tab_width(w);
@@ -131,7 +169,7 @@ mod verif_c16_state {
 
     // @harness id=C16 tier=quick timeout=1800 mem=12 checks=rust
     // @bounds inductive step, set_style(style with TAB literals carrying ANY width ws in 0..=9 of its own, e.g. a clone taken from another bar) from any consistent state: the installed style and its literals carry the bar's width
-    c16_step!(c16_step_set_style, bs, now, {
+    c16_step!(c16_step_set_style, bs, now, w0, {
         let spec2 = [RigPart::Lit("\ty")];
         let mut st2 = rig_style_spec(&spec2);
         let ws: usize = kani::any();
@@ -142,7 +180,7 @@ mod verif_c16_state {
 
     // @harness id=C16 tier=quick timeout=1800 mem=12 checks=rust
     // @bounds inductive step, set_message / set_prefix (as ProgressBar performs them: TabExpandedString::new(text, state.tab_width) + update_estimate_and_draw) from any consistent state
-    c16_step!(c16_step_set_message_prefix, bs, now, {
+    c16_step!(c16_step_set_message_prefix, bs, now, w0, {
         if kani::any() {
             bs.state.message = TabExpandedString::new("a\tb".into(), bs.tab_width);
         } else {
@@ -153,7 +191,7 @@ mod verif_c16_state {
 
     // @harness id=C16 tier=quick timeout=1800 mem=12 checks=rust
     // @bounds inductive step, finish_with_message("\tz") (finish_using_style with ProgressFinish::WithMessage) from any consistent state: the final message carries the bar's width
-    c16_step!(c16_step_finish_with_message, bs, now, {
+    c16_step!(c16_step_finish_with_message, bs, now, w0, {
         bs.finish_using_style(now, ProgressFinish::WithMessage("\tz".into()));
         assert!(matches!(&bs.state.message, TabExpandedString::WithTabs { .. }));
     });
